@@ -254,6 +254,24 @@ def check_case(rec, case):
         o = call(getattr(pa, name), o.value)
         if not o.ok:
             report_failure(rec, o, name, pda=RP)
+    # the same constructions with the library's global logging switch on (round 14, C10_l: a trace block that consumes a generator the
+    # result is built from); the contracts judge these calls like any other, the trace output is swallowed
+    if case.get('logging', True):
+        from gambatools.global_settings import GambaTools
+        old_log = GambaTools.enable_logging
+        try:
+            GambaTools.enable_logging = True
+            for name in ('pda_to_one_accepting_state_in_place', 'pda_to_push_pop', 'pda_to_accept_on_empty_stack', 'pda_to_cfg'):
+                o = call(P)
+                if not o.ok:
+                    break
+                with common.captured():
+                    o = call(getattr(pa, name), o.value)
+                rec.counters['calls_with_logging_on'] += 1
+                if not o.ok:
+                    report_failure(rec, o, name, pda=RP, logging=True)
+        finally:
+            GambaTools.enable_logging = old_log
     # the same OBJECT through the copying constructions, changed in place, and through them again
     if len(RP[0]) >= 2 and case['cls'].startswith('random'):
         o = call(P)
